@@ -34,7 +34,8 @@ CONSTANTS Keys,       \* set of digests (equal length, >= 4 bytes); bucket = dig
           Vals,       \* set of value lengths (a value is identified by its length)
           PriLimit, IdxLimit,
           MaxCalls,   \* bound on the history length (state space)
-          WithGC      \* TRUE: the two collectors' cycles are among the calls
+          WithGC,     \* TRUE: the two collectors' cycles are among the calls
+          LowUses     \* low-use thresholds of primary GC to explore (101 = never relocate)
 
 VARIABLES kv, bk, inext, ifiles, ifirst, ilen,
           pnext, pfiles, pfirst, plen, recFile, recPos,
@@ -201,7 +202,7 @@ Flush ==
      ELSE \E order \in Perms(Dirty) : FlushWith(order)
 
 
-\* ---------------------------------------------------------------- primary GC (threshold 101: no relocation)
+\* ---------------------------------------------------------------- primary GC
 \* freelist hand-over: the flushed freelist file becomes .gc (an existing .gc is used as it is)
 HandOver == IF flgc.has THEN [gc |-> flgc.l, fl |-> flfile] ELSE [gc |-> flfile, fl |-> <<>>]
 \* deleteRecords: mark the record at each freed location if it is there, unmarked and of the recorded size
@@ -224,29 +225,61 @@ Merge(recs) ==
        ELSE <<recs[1]>> \o Merge(Tail(recs))
 CutTail(recs) == IF recs # <<>> /\ recs[Len(recs)].del THEN SubSeq(recs, 1, Len(recs) - 1) ELSE recs
 Reap(recs) == CutTail(Merge(recs))
+\* low-use relocation: if the free share of the file (as scanned, before this pass merged anything) has reached the
+\* threshold, the last two records that are not marked deleted are copied to the end of the primary (primary.Put: into the
+\* pool, at the predicted position) and the index is re-pointed with Index.UpdateIf - only if it still names the record
+\* being moved; then the OLD location goes on the freelist, otherwise the unreachable COPY does
+EffListW(inx, b) == IF inx[b].has THEN inx[b] ELSE DiskList(b)
+SumSizes(recs, wantDel) == LET S == {j \in 1..Len(recs) : recs[j].del = wantDel} IN
+                           LET RECURSIVE Acc(_)
+                               Acc(T) == IF T = {} THEN 0 ELSE LET j == CHOOSE x \in T : TRUE IN recs[j].size + Acc(T \ {j})
+                           IN Acc(S)
+LowUse(scanned, lu) == 100 * SumSizes(scanned, TRUE) >= lu * (SumSizes(scanned, TRUE) + SumSizes(scanned, FALSE))
+RelocOne(acc, rec, fnum, off) ==
+  LET old == [off |-> fnum * PriLimit + off, sz |-> rec.size]
+      pp  == IF acc.recPos >= PriLimit THEN [f |-> acc.recFile + 1, p |-> 0] ELSE [f |-> acc.recFile, p |-> acc.recPos]
+      new == [off |-> PriLimit * pp.f + pp.p, sz |-> rec.size]
+      b   == Bucket(rec.k)
+      el  == EffListW(acc.inext, b)
+      m   == IF el.has THEN Match(el.l, Strip(rec.k)) ELSE 0
+      moved == m # 0 /\ el.l[m].loc = old
+  IN [pnext |-> Append(acc.pnext, [pos |-> new.off, k |-> rec.k, v |-> rec.v]),
+      recFile |-> pp.f, recPos |-> pp.p + 4 + rec.size,
+      inext |-> IF moved THEN [acc.inext EXCEPT ![b] = SomeList([el.l EXCEPT ![m].loc = new])] ELSE acc.inext,
+      flpool |-> Append(acc.flpool, IF moved THEN old ELSE new)]
+Relocate(acc, recs, fnum) ==      \* recs = the file after this pass's merge and truncation
+  LET offs == POffsets(recs, 1, 0)
+      busy == {j \in 1..Len(recs) : ~recs[j].del}
+      last == IF busy = {} THEN 0 ELSE CHOOSE j \in busy : \A x \in busy : x <= j
+      prev == IF busy \ {last} = {} THEN 0 ELSE CHOOSE j \in busy \ {last} : \A x \in busy \ {last} : x <= j
+      a1   == IF last = 0 THEN acc ELSE RelocOne(acc, recs[last], fnum, offs[last])
+  IN IF prev = 0 THEN a1 ELSE RelocOne(a1, recs[prev], fnum, offs[prev])
+
 \* one complete cycle over the non-current files that are not in `visited`
-RECURSIVE ReapFiles(_, _, _, _)
-ReapFiles(files, first, i, vis) ==        \* i = index into files of the file being looked at
-  IF i >= Len(files) THEN [files |-> files, first |-> first, vis |-> vis]
+RECURSIVE ReapFiles(_, _, _, _, _, _)
+ReapFiles(files, first, i, vis, lu, acc) ==        \* i = index into files of the file being looked at
+  IF i >= Len(files) THEN [files |-> files, first |-> first, vis |-> vis, acc |-> acc]
   ELSE LET fnum == first + i - 1 IN
-       IF fnum \in vis THEN ReapFiles(files, first, i + 1, vis)
+       IF fnum \in vis THEN ReapFiles(files, first, i + 1, vis, lu, acc)
        ELSE LET recs2 == Reap(files[i])
                 dead  == recs2 = <<>>
             IN IF dead /\ i = 1
-               THEN ReapFiles(Tail(files), first + 1, 1, vis \cup {fnum})            \* header advanced, file removed
-               ELSE ReapFiles([files EXCEPT ![i] = recs2], first, i + 1, vis \cup {fnum})
+               THEN ReapFiles(Tail(files), first + 1, 1, vis \cup {fnum}, lu, acc)            \* header advanced, file removed
+               ELSE ReapFiles([files EXCEPT ![i] = recs2], first, i + 1, vis \cup {fnum}, lu,
+                              IF ~dead /\ LowUse(files[i], lu) THEN Relocate(acc, recs2, fnum) ELSE acc)
 
-PriGC ==
-  /\ Call([op |-> "prigc"])
+PriGC(lu) ==
+  /\ Call([op |-> "prigc", lowUse |-> lu])
   /\ LET ho     == HandOver
          marked == MarkAll(pfiles, ho.gc)
          vis1   == visited \ Affected(pfiles, marked)
-         rp     == ReapFiles(marked, pfirst, 1, vis1)
+         rp     == ReapFiles(marked, pfirst, 1, vis1, lu, [pnext |-> pnext, recFile |-> recFile, recPos |-> recPos, inext |-> inext, flpool |-> flpool])
      IN /\ pfiles' = rp.files /\ pfirst' = rp.first /\ visited' = rp.vis
         /\ flfile' = ho.fl /\ flgc' = [has |-> FALSE, l |-> <<>>]
         /\ plen' = plen
-  /\ UNCHANGED <<kv, bk, inext, ifiles, ifirst, ilen, pnext, recFile, recPos, flpool>>
-
+        /\ pnext' = rp.acc.pnext /\ recFile' = rp.acc.recFile /\ recPos' = rp.acc.recPos
+        /\ inext' = rp.acc.inext /\ flpool' = rp.acc.flpool
+  /\ UNCHANGED <<kv, bk, ifiles, ifirst, ilen>>
 
 \* ---------------------------------------------------------------- index GC (one complete cycle)
 \* a record is busy iff its bucket points exactly at it
@@ -287,7 +320,7 @@ IdxGC(scanFree) ==
   /\ UNCHANGED <<kv, bk, inext, ilen, pnext, pfiles, pfirst, plen, recFile, recPos, flpool, flfile, flgc, visited>>
 
 Next == \/ (\E k \in Keys, v \in Vals : Put(k, v)) \/ (\E k \in Keys : Remove(k)) \/ Flush
-        \/ (WithGC /\ (PriGC \/ \E sf \in BOOLEAN : IdxGC(sf)))
+        \/ (WithGC /\ ((\E lu \in LowUses : PriGC(lu)) \/ \E sf \in BOOLEAN : IdxGC(sf)))
 Spec == Init /\ [][Next]_vars
 
 \* ---------------------------------------------------------------- properties
@@ -297,6 +330,18 @@ PredictedPositionsExact ==
   (pnext = <<>> /\ Dirty = {}) =>
      \A b \in Buckets : bk[b] # 0 =>
         \A i \in 1..Len(DiskList(b).l) : PriLookup(DiskList(b).l[i].loc.off).found
+\* C02 (both recovery paths): the bucket table a rescan of the index files rebuilds - every file from the first one,
+\* records in order, deleted ones skipped, a later record of a bucket wins - is the live table whenever nothing is unflushed
+RECURSIVE ScanRecs(_, _, _, _, _)
+ScanRecs(recs, j, off, fnum, t) ==
+  IF j > Len(recs) THEN t
+  ELSE ScanRecs(recs, j + 1, off + IRecSize(recs[j]), fnum,
+                IF recs[j].del THEN t ELSE [t EXCEPT ![recs[j].b] = fnum * IdxLimit + off + 4])
+RECURSIVE ScanFiles(_, _)
+ScanFiles(i, t) == IF i > Len(ifiles) THEN t ELSE ScanFiles(i + 1, ScanRecs(ifiles[i], 1, 0, ifirst + i - 1, t))
+RescanTable == ScanFiles(1, [b \in Buckets |-> 0])
+SnapshotEqualsRescan == (pnext = <<>> /\ Dirty = {}) => RescanTable = bk
+
 \* C13 (sequential): the freelist holds exactly the superseded locations, once each
 FreedOnce == \A i, j \in 1..Len(flfile \o flpool) : i # j => (flfile \o flpool)[i] # (flfile \o flpool)[j]
 \* C04 for this mechanism: a GC cycle never changes the contents
